@@ -743,6 +743,28 @@ theorem ssRun_spec (cfg : EulerCfg) (c c' : Content) (r : Option (List Seg))
     · cases h
     · exact ssRunCore_spec cfg c c' r h
 
+/-- behind the `except ZeroDivisionError` guard: a run that returned either was turned into a failed result with the
+    model untouched, or is the unguarded run's answer -/
+theorem guardZeroDiv_ok {cfg : EulerCfg} {run : Content → Except Err (Content × Option (List Seg))} {c c' : Content}
+    {r : Option (List Seg)} (h : guardZeroDiv cfg run c = .ok (c', r)) :
+    (c' = c ∧ r = none ∧ zeroDivAt cfg c = .ok true) ∨ run c = .ok (c', r) := by
+  unfold guardZeroDiv at h
+  split at h
+  · cases h
+  · split at h
+    · cases h
+    · next hz =>
+      simp only [show Generated.C09.workersCatchZeroDivision = true from by decide, if_true, Except.ok.injEq,
+        Prod.mk.injEq] at h
+      exact Or.inl ⟨h.1.symm, h.2.symm, hz⟩
+    · exact Or.inr h
+
+theorem guardZeroDiv_some {cfg : EulerCfg} {run : Content → Except Err (Content × Option (List Seg))} {c c' : Content}
+    {segs : List Seg} (h : guardZeroDiv cfg run c = .ok (c', some segs)) : run c = .ok (c', some segs) := by
+  rcases guardZeroDiv_ok h with ⟨_, h2, _⟩ | h
+  · cases h2
+  · exact h
+
 theorem ssRun_shape (cfg : EulerCfg) (c c' : Content) (segs : List Seg)
     (h : ssRun cfg c = .ok (c', some segs)) :
     (segs.flatMap (·.rows)).length = 1 ∧ c' = c := by
